@@ -86,6 +86,10 @@ pub fn total(case: &J) -> R<J> {
             if let Some(tr) = case.get("trail").and_then(|s| s.as_str()) {
                 t.push_str(tr);
             }
+            // "lead": text in front of the first token (blank lines, indentation)
+            if let Some(ld) = case.get("lead").and_then(|s| s.as_str()) {
+                t.insert_str(0, ld);
+            }
             t
         }
     };
